@@ -98,6 +98,7 @@ func checkMain(args []string) int {
 	evPath := filepath.Join(root, "evidence", id+".json")
 	os.MkdirAll(filepath.Dir(evPath), 0o755)
 	os.Remove(evPath)
+	os.RemoveAll(filepath.Join(root, "replays", id))
 	e, err := LoadEngine(repoRoot(), root+"/spec")
 	if err != nil {
 		// the tree does not load (does not compile): report as broken binding, not as a pass
